@@ -459,3 +459,58 @@ func (e *Eng) drainSync(pm *ssa.Function) {
 	}
 	e.add("drain#sync-failure", funcKey(pm), props, ok, detail)
 }
+
+// sharedVars: a variable captured by a goroutine closure and written there is not touched by the parent between
+// the go statement and the join (WaitGroup.Wait) on any path: otherwise the result depends on the schedule (C07)
+// and the accesses race (C20).
+func (e *Eng) sharedVars() {
+	props := []string{"C07", "C20"}
+	nshared := map[string]int{}
+	for _, fn := range e.allFuncs() {
+		for _, g := range find(fn, isGo()) {
+			goi := g.b.Instrs[g.i].(*ssa.Go)
+			mc, ok := goi.Call.Value.(*ssa.MakeClosure)
+			if !ok {
+				continue
+			}
+			cl := mc.Fn.(*ssa.Function)
+			// free variables written by the closure (directly)
+			written := map[ssa.Value]string{}
+			for k, fv := range cl.FreeVars {
+				for _, r := range *fv.Referrers() {
+					if st, ok := r.(*ssa.Store); ok && st.Addr == ssa.Value(fv) {
+						written[mc.Bindings[k]] = fv.Name()
+					}
+				}
+			}
+			if len(written) == 0 {
+				continue
+			}
+			touches := func(in ssa.Instruction) bool {
+				switch x := in.(type) {
+				case *ssa.Store:
+					_, w := written[x.Addr]
+					return w
+				case *ssa.UnOp:
+					if x.Op == token.MUL {
+						_, w := written[x.X]
+						return w
+					}
+				}
+				return false
+			}
+			join := or(isCall("(*sync.WaitGroup).Wait"), isDefer("(*sync.WaitGroup).Wait"))
+			var names []string
+			for _, n := range written {
+				names = append(names, n)
+			}
+			nshared[funcKey(fn)]++
+			name := fmt.Sprintf("shared#parent-waits-before-touching.%d", nshared[funcKey(fn)])
+			if r, w := reachWithout(g, touches, join); r {
+				e.add(name, funcKey(fn), props, false, fmt.Sprintf("variable written by the goroutine started at %s is accessed by the parent at %s before the join", e.pos(goi), e.pos(w)))
+			} else {
+				e.add(name, funcKey(fn), props, true, "goroutine at "+e.pos(goi)+" writes captured "+strings.Join(uniq(names), ",")+"; the parent does not touch them before Wait")
+			}
+		}
+	}
+}
